@@ -230,7 +230,9 @@ func (b *DirectoryBackend) osPath(path string) (string, error) {
 	fullPath := filepath.Join(b.root, pathSeparators.Replace(path))
 	// This is conservative check that "fullPath" is child of "b.root",
 	// catching any funny "../../../.." that we might accidentally get.
-	if fullPath != filepath.Clean(fullPath) {
+	// (Join already cleans the path, so ".." elements have been resolved: compare with the root itself.)
+	root := filepath.Clean(b.root)
+	if fullPath != root && !strings.HasPrefix(fullPath, strings.TrimSuffix(root, string(filepath.Separator))+string(filepath.Separator)) {
 		b.log.WithField("path", path).Warn("invalid key path used")
 		return "", api.ErrInvalidPath
 	}
